@@ -381,6 +381,8 @@ type CqlServerConnection struct {
 	ctx                context.Context
 	cancel             context.CancelFunc
 	payloadAccumulator *payloadAccumulator
+	// channelsLock guards the closing of the incoming and outgoing channels against concurrent (non-blocking) sends
+	channelsLock sync.RWMutex
 }
 
 func newCqlServerConnection(
@@ -666,12 +668,18 @@ func (c *CqlServerConnection) reportConnectionFailure(err error, read bool) (abo
 
 func (c *CqlServerConnection) processIncomingFrame(incoming *frame.Frame) {
 	log.Debug().Msgf("%v: received incoming frame: %v", c, incoming)
+	c.channelsLock.RLock()
+	if c.IsClosed() {
+		c.channelsLock.RUnlock()
+		return
+	}
 	select {
 	case c.incoming <- incoming:
 		log.Debug().Msgf("%v: incoming frame successfully delivered: %v", c, incoming)
 	default:
 		log.Error().Msgf("%v: incoming frames queue is full, discarding frame: %v", c, incoming)
 	}
+	c.channelsLock.RUnlock()
 	if len(c.handlers) > 0 {
 		c.invokeRequestHandlers(incoming)
 	}
@@ -723,6 +731,8 @@ func (c *CqlServerConnection) invokeRequestHandlers(request *frame.Frame) {
 
 // Send sends the given response frame.
 func (c *CqlServerConnection) Send(f *frame.Frame) error {
+	c.channelsLock.RLock()
+	defer c.channelsLock.RUnlock()
 	if c.IsClosed() {
 		return fmt.Errorf("%v: connection closed", c)
 	}
@@ -738,6 +748,8 @@ func (c *CqlServerConnection) Send(f *frame.Frame) error {
 
 // SendRaw sends the given response frame (already encoded).
 func (c *CqlServerConnection) SendRaw(rawResponse []byte) error {
+	c.channelsLock.RLock()
+	defer c.channelsLock.RUnlock()
 	if c.IsClosed() {
 		return fmt.Errorf("%v: connection closed", c)
 	}
@@ -783,12 +795,12 @@ func (c *CqlServerConnection) Close() (err error) {
 		log.Debug().Msgf("%v: closing", c)
 		c.cancel()
 		err = c.conn.Close()
+		c.channelsLock.Lock()
 		incoming := c.incoming
 		outgoing := c.outgoing
-		c.incoming = nil
-		c.outgoing = nil
 		close(incoming)
 		close(outgoing)
+		c.channelsLock.Unlock()
 		c.waitGroup.Wait()
 		c.onClose(c)
 		if err != nil {
